@@ -539,6 +539,18 @@ def free_threads_shard(arg):
     st = Stats()
     srcs = [POOL[i % len(POOL)] for i in range(nthreads)]
 
+    import tempfile
+
+    from pycparser import parse_file
+
+    tmpd = tempfile.mkdtemp(prefix="c13f_")
+    paths = []
+    for i, s in enumerate(srcs):
+        pth = os.path.join(tmpd, "t%d.c" % i)
+        with open(pth, "w") as f:
+            f.write(s)
+        paths.append(pth)
+
     def work_solo(i):
         p = c_parser.CParser()
         out = []
@@ -547,6 +559,11 @@ def free_threads_shard(arg):
             out.append(("ok", dump(a, True), c_generator.CGenerator().visit(a)))
         except Exception as e:  # noqa: BLE001
             out.append(("err", type(e).__name__, str(e)))
+        # the convenience entry point: every call without parser= is a parse of its own
+        try:
+            out.append(("ok", dump(parse_file(paths[i]), True)))
+        except Exception as e:  # noqa: BLE001
+            out.append(("err", type(e).__name__, str(e).replace(tmpd, "")))
         return out
 
     exp = [work_solo(i) for i in range(nthreads)]
@@ -570,6 +587,9 @@ def free_threads_shard(arg):
             t.join()
     finally:
         sys.setswitchinterval(old)
+    import shutil
+
+    shutil.rmtree(tmpd, ignore_errors=True)
     st.evaluations += nthreads * rounds
     st.classes["free_running_parses"] += nthreads * rounds
     if bad:
